@@ -11,7 +11,7 @@ RULE = ('EX engine: dpss(N, NW, k) for EVERY N in the bound (plus a fixed ladder
         'NW < N/2 x k in {default} and EVERY k in 1..floor(2NW); the C routine is recompiled from src/cpp/mydpss.c for the run.  Checks: shape, V^T V = I, '
         'eigenvalues in (0,1] non-increasing and equal to v^T A v with A the sinc concentration kernel, ||A v - lambda v|| small, columns equal the eigenvectors '
         'of the commuting tridiagonal matrix (independent LAPACK solver) after the sign convention, parity and sign rules. Distinct = digests of the taper matrices')
-ASSUMPTIONS = ['the C routine receives NW as a C float: tolerances 1e-5 on eigenvectors / residuals, 1e-6 on concentration ratios',
+ASSUMPTIONS = ['eigenvector / residual tolerances follow the measured accuracy of the pinned routine with a margin of 40-100: 1e-9 (N <= 64), 1e-7 / 5e-8 (N <= 512), 1e-6 / 5e-7 (N <= 1024), 1e-5 beyond, for half-integer NW; 1e-6 for other NW (the routine receives NW as a C float); concentration ratios 1e-10',
                'the two highest-order tapers of k = floor(2NW) have concentration well below 1 but remain leading eigenvectors; non-degenerate eigenvalue gaps > 1e-7 are required for the eigenvector comparison']
 NWS = [1.0, 1.5, 2.0, 2.5, 3.0, 3.5, 4.0, 4.5, 5.0, 5.5, 6.0, 6.5, 7.0, 7.5, 8.0, 1.2, 2.3, 3.3, 5.7]
 LADDER = [600, 768, 1000, 1024, 2047, 2048, 4095, 4096]
@@ -103,13 +103,20 @@ def eval_point(pt, R):
     conc = np.sum(tapers * AV, axis=0)
     R.check(np.all(ev > 0) and np.all(ev <= 1 + 1e-9) and np.all(np.diff(ev) <= 1e-9), 'eigenvalues', feats, pt, ev, 'in (0,1], non-increasing',
             'concentration ratios outside (0,1] or not ordered')
-    R.check(close(ev, conc, 0.0, 1e-6), 'concentration', feats, pt, ev, conc, 'returned eigenvalue != fraction of the taper energy inside |f| <= NW/N',
+    half = (2 * NW) == int(2 * NW)
+    # accuracy of the pinned routine (measured over the whole bound, then x 40..100): half-integer NW is exact as a C float and the routine is
+    # accurate to 1e-11 (N <= 64) .. 2e-9 (N <= 512) .. 2e-8 (N <= 1024) .. 2e-6 (beyond); other NW values carry the float rounding of NW (2e-8)
+    if half:
+        tol_res, tol_vec = (1e-9, 1e-9) if N <= 64 else ((1e-7, 5e-8) if N <= 512 else ((1e-6, 5e-7) if N <= 1024 else (1e-5, 1e-5)))
+    else:
+        tol_res, tol_vec = (1e-6, 1e-6) if N <= 1024 else (1e-5, 1e-5)
+    R.check(close(ev, conc, 0.0, 1e-10), 'concentration', feats, pt, ev, conc, 'returned eigenvalue != fraction of the taper energy inside |f| <= NW/N',
             err=float(np.max(np.abs(ev - conc))))
     res = np.max(np.sqrt(np.sum((AV - tapers * conc) ** 2, axis=0)))
-    R.check(res <= 1e-5, 'eigvec_residual', feats, pt, float(res), '<=1e-5', 'columns are not eigenvectors of the sinc concentration kernel (||Av - lambda v||)', err=float(res))
+    R.check(res <= tol_res, 'eigvec_residual', feats, pt, float(res), '<=%g' % tol_res, 'columns are not eigenvectors of the sinc concentration kernel (||Av - lambda v||)', err=float(res))
     vr = vref[:, :kk]
     d = float(np.max(np.abs(tapers - vr)))
-    R.check(d <= 1e-5, 'tridiagonal', feats, pt, d, '<=1e-5', 'columns differ from the leading eigenvectors of the commuting tridiagonal matrix (independent solver, sign convention applied)',
+    R.check(d <= tol_vec, 'tridiagonal', feats, pt, d, '<=%g' % tol_vec, 'columns differ from the leading eigenvectors of the commuting tridiagonal matrix (independent solver, sign convention applied)',
             err=d)
     par = 0.0
     okp = True
